@@ -33,11 +33,14 @@ TStep == /\ l <= Len(T.ev) /\ ~done /\ l' = l + 1 /\ UNCHANGED <<t, done>>
                                              [] Ev.a[1] = "temp"   -> File.kind = "tempfail" /\ ErrEarly
                                              [] Ev.a[1] = "wrap"   -> ErrWrap
                                              [] Ev.a[1] = "stream" -> ErrStream
+                                             [] Ev.a[1] = "wrapperClose" -> ErrWrapperClose
                                              [] OTHER -> FALSE
               [] Ev.s = "tempCreated"   -> TempCreated
               [] Ev.s = "wrapped"       -> Wrapped /\ Ev.a[1] = File.gz
               [] Ev.s = "wrote"         -> Wrote
-              [] Ev.s = "flushed"       -> Flushed /\ Ev.a[1] = (File.kind \in {"streamerr", "writefail"})
+              \* (the logged flag: the stream's final flush failed. With a recompressor in between it may succeed although
+              \* the temp file cannot take the data)
+              [] Ev.s = "flushed"       -> Flushed /\ (Ev.a[1] = (File.kind \in {"streamerr", "writefail"}) \/ (File.kind = "writefail" /\ File.gz))
               [] Ev.s = "streamDone"    -> StreamDone
               [] Ev.s = "wrapperClosed" -> WrapperClosed
               [] Ev.s = "closed"        -> Closed
